@@ -615,12 +615,21 @@ Definition dep_ok (s : system) (ivs : list ivar) (e : ieq) : Prop :=
                                   (forall u, In u (ie_unknown e) -> cls_of s d <> iv_cls (geti ivs u)) /\
                                   exists p, p < length ivs /\ iv_cls (geti ivs p) = cls_of s d).
 
+(* what the packaging needs of the equations: each has a type and computes known variables of a computed type *)
+Definition eqs_fin (ivs : list ivar) (es : list ieq) : Prop :=
+  forall e, In e es -> ie_type e <> EUnknown /\ ie_unknown e <> [] /\
+    forall p, In p (ie_unknown e) -> p < length ivs /\ computed_type (iv_type (geti ivs p)) = true.
+
 Lemma package_deps : forall s ty voi ivs es,
-  fin_inv ivs (map core es) -> Forall (fun v => iv_external v = false) ivs -> ivs_ok s ivs -> dependency_fix = true ->
+  eqs_fin ivs es -> Forall (fun v => iv_external v = false) ivs -> ivs_ok s ivs -> dependency_fix = true ->
   Forall (dep_ok s ivs) es ->
   wf_deps_complete s (package s ty voi ivs es) = true /\ wf_deps_sound s (package s ty voi ivs es) = true.
 Proof.
-  intros s ty voi ivs es [Ft Fa Fe] Hne Hok Hfx Hdep. unfold package.
+  intros s ty voi ivs es Hfe Hne Hok Hfx Hdep.
+  assert (Fe : forall c, In c (map core es) -> fst c <> EUnknown /\ snd c <> [] /\
+                 forall p, In p (snd c) -> p < length ivs /\ computed_type (iv_type (geti ivs p)) = true).
+  { intros c Hc. apply in_map_iff in Hc. destruct Hc as (e & <- & He). exact (Hfe e He). }
+  unfold package.
   set (consts := filter (fun p => vtype_eqb (iv_type (geti ivs p)) VConstant) (seq 0 (length ivs))).
   set (dum := map (new_var_eq ivs) consts).
   set (es3 := es ++ dum).
@@ -754,42 +763,175 @@ Proof.
   unfold wf_deps_complete, wf_deps_sound. split; rewrite forallb_forall; intros x Hx; destruct (Hone x Hx) as (A & B & C); [exact A|rewrite B, C; reflexivity].
 Qed.
 
-(* ------------------------------------------------------------------ the theorem *)
+(* ------------------------------------------------------------------ the second half of analyseModel keeps the kinds *)
+
+Definition same2 (e e' : ieq) : Prop :=
+  same_dep e e' /\ (ie_type e' = ENla <-> ie_type e = ENla) /\ (ie_type e' = EOde <-> ie_type e = EOde).
+
+Lemma same2_refl : forall e, same2 e e.
+Proof. intro e. unfold same2, same_dep. tauto. Qed.
+Lemma same2_trans : forall a b c, same2 a b -> same2 b c -> same2 a c.
+Proof.
+  intros a b c (A & A6 & A7) (B & B6 & B7). split; [eapply same_dep_trans; eassumption|]. tauto.
+Qed.
+
+Lemma nla_step_same2 : forall ivs es st k, Forall (fun v => iv_external v = false) ivs ->
+  (forall j, same2 (gete es j) (gete (ns_es st) j)) ->
+  forall j, same2 (gete es j) (gete (ns_es (nla_step ivs st k)) j).
+Proof.
+  intros ivs es st k Hne H. unfold nla_step.
+  set (l := ns_es st) in *. set (e := gete l k).
+  assert (Hfil : forall x, filter (fun p => negb (iv_external (geti ivs p))) x = x).
+  { intro x. apply filter_id. intro p. rewrite (noext_geti _ p Hne). reflexivity. }
+  assert (He1 : set_unknown e (ie_unknown e) = e) by (destruct e; reflexivity).
+  assert (Hkeep : forall (y : ieq), same2 (gete es k) e -> same2 e y -> same2 (gete es k) y).
+  { intros y A B. eapply same2_trans; eassumption. }
+  destruct (is_nla e) eqn:En.
+  - rewrite Hfil, He1, En. cbn [negb].
+    match goal with |- context [let '(idx, next) := ?m in _] => destruct m as [idx next] end.
+    cbn [ns_es].
+    set (l1 := upd l k e).
+    assert (H1 : forall j, same2 (gete es j) (gete l1 j)) by (apply upd_pointwise; [exact H|intro K; exact K]).
+    set (l2 := upd l1 k (set_nla e (Some idx))).
+    assert (H2 : forall j, same2 (gete es j) (gete l2 j)).
+    { apply upd_pointwise; [exact H1|]. intros _. apply (Hkeep _ (H k)). unfold same2, same_dep. cbn. tauto. }
+    match goal with |- context [fold_left ?f ?oo l2] => set (os := oo); set (l3 := fold_left f os l2) end.
+    assert (H3 : forall j, same2 (gete es j) (gete l3 j)).
+    { unfold l3. generalize os. intro o. revert H2. generalize l2. induction o as [|z o IHo]; intros l0 H0; cbn [fold_left]; [exact H0|].
+      apply IHo. apply upd_pointwise; [exact H0|]. intro K. eapply same2_trans; [exact K|]. unfold same2, same_dep. cbn. tauto. }
+    apply upd_pointwise; [exact H3|]. intro K. eapply same2_trans; [exact K|]. unfold same2, same_dep. cbn. tauto.
+  - rewrite En. cbn [negb ns_es]. apply upd_pointwise; [exact H|intro K; exact K].
+Qed.
+
+Lemma nla_group_elem2 : forall ivs es e', Forall (fun v => iv_external v = false) ivs ->
+  In e' (nla_group ivs es) -> exists e, In e es /\ same2 e e'.
+Proof.
+  intros ivs es e' Hne Hin. unfold nla_group in Hin.
+  assert (Hfold : forall ks st, (forall j, same2 (gete es j) (gete (ns_es st) j)) ->
+             forall j, same2 (gete es j) (gete (ns_es (fold_left (nla_step ivs) ks st)) j)).
+  { induction ks as [|k r IH]; intros st H0; cbn [fold_left]; [exact H0|]. apply IH. apply nla_step_same2; assumption. }
+  destruct (nla_fold_more ivs es (length es) (mkNs es 0 [] []) Hne eq_refl eq_refl (le_n _) (fun _ _ => I)) as (A1 & A2 & _).
+  pose proof (Hfold (seq 0 (length es)) (mkNs es 0 [] []) (fun j => same2_refl _)) as Hs.
+  set (st := fold_left (nla_step ivs) (seq 0 (length es)) (mkNs es 0 [] [])) in *.
+  rewrite A2 in Hin. cbn [map] in Hin. rewrite app_nil_r in Hin.
+  assert (Hlen : length (ns_es st) = length es).
+  { pose proof (f_equal (@length _) A1) as K. rewrite !map_length in K. exact K. }
+  apply in_map_iff in Hin. destruct Hin as (j & <- & Hj). apply filter_In in Hj. destruct Hj as (Hj & _). apply in_seq in Hj.
+  exists (gete es j). split; [apply nth_In; lia|].
+  eapply same2_trans; [apply Hs|]. unfold same2, same_dep. cbn. tauto.
+Qed.
+
+Lemma requalify_step_elem2 : forall ivs done over iss e ivs' done' over' iss',
+  requalify_step (ivs, done, over, iss) e = (ivs', done', over', iss') ->
+  exists e', done' = done ++ [e'] /\ same2 e e'.
+Proof.
+  intros ivs done over iss e ivs' done' over' iss' H. unfold requalify_step in H.
+  destruct (ie_type e) eqn:Et; try (inversion H; subst; exists e; split; [reflexivity|apply same2_refl]).
+  - destruct (existsb _ (ie_all e)); inversion H; subst; [|exists e; split; [reflexivity|apply same2_refl]].
+    exists (set_etype e EAlgebraic). split; [reflexivity|]. unfold same2, same_dep. cbn. rewrite Et.
+    repeat split; try reflexivity; intro K; discriminate.
+  - destruct (length (ie_unknown e) <? length (ie_sibs e) + 1).
+    + match type of H with context [fold_left ?f (ie_unknown e) ?a] => destruct (fold_left f (ie_unknown e) a) as [[ivs3 over3] iss3] end.
+      inversion H; subst. exists e. split; [reflexivity|apply same2_refl].
+    + inversion H; subst. exists e. split; [reflexivity|apply same2_refl].
+Qed.
+
+Lemma requalify_fold_elem2 : forall es ivs done over iss ivs2 es2 over2 iss2,
+  fold_left requalify_step es (ivs, done, over, iss) = (ivs2, es2, over2, iss2) ->
+  forall e2, In e2 es2 -> In e2 done \/ exists e, In e es /\ same2 e e2.
+Proof.
+  induction es as [|e r IH]; intros ivs done over iss ivs2 es2 over2 iss2 H e2 He2; cbn [fold_left] in H.
+  - inversion H; subst. left. exact He2.
+  - destruct (requalify_step (ivs, done, over, iss) e) as [[[ivs1 done1] over1] iss1] eqn:E.
+    destruct (requalify_step_elem2 _ _ _ _ _ _ _ _ _ E) as (e' & -> & Hs).
+    destruct (IH _ _ _ _ _ _ _ _ H e2 He2) as [K|(x & Hx & Hsx)].
+    + apply in_app_iff in K. destruct K as [K|[<-|[]]]; [left; exact K|right]. exists e. split; [left; reflexivity|exact Hs].
+    + right. exists x. split; [right; exact Hx|exact Hsx].
+Qed.
+
+
+(* ------------------------------------------------------------------ the second half of analyseModel, without any hypothesis on the states *)
+
+Definition single (es : list ieq) : Prop :=
+  forall e p, In e es -> ie_type e <> EUnknown -> ie_type e <> ENla -> In p (ie_unknown e) -> ie_unknown e = [p].
+
+Lemma finish_weak : forall s ivs es vidx ivs1 n ivs2 es2 over2,
+  own_inv ivs es -> Forall (fun v => iv_external v = false) ivs ->
+  validate_vars ivs vidx = (ivs1, n, []) ->
+  fold_left requalify_step (nla_group ivs1 es) (ivs1, [], [], []) = (ivs2, es2, over2, []) ->
+  evolves s ivs ivs2 /\ Forall (fun v => iv_external v = false) ivs2 /\
+  (forall e2, In e2 es2 -> exists e1, In e1 es /\ same2 e1 e2) /\ eqs_fin ivs2 es2 /\ single es2.
+Proof.
+  intros s ivs es vidx ivs1 n ivs2 es2 over2 Hown Hne Ev Er.
+  destruct (validate_vars_spec s _ _ _ _ _ Ev) as (V1 & V2). specialize (V2 eq_refl).
+  destruct (validate_types _ _ _ _ Ev) as (L1 & T1).
+  pose proof (Forall2_evolves _ _ _ V1) as Hev1. pose proof (noext_evolves _ _ _ Hev1 Hne) as Hne1.
+  pose proof (oi_bounds _ _ Hown) as HB. rewrite Forall_forall in HB.
+  assert (Hnz : forall e', In e' (nla_group ivs1 es) -> ie_unknown e' <> []).
+  { intros e' He'. destruct (nla_group_cores ivs1 es Hne1) as (G1 & _).
+    assert (Hc : In (core e') (map core (nla_group ivs1 es))) by (apply in_map; exact He').
+    rewrite G1 in Hc. apply in_map_iff in Hc. destruct Hc as (e0 & E0 & He0). apply filter_In in He0. destruct He0 as (_ & Hu).
+    assert (K : ie_unknown e' = ie_unknown e0) by (unfold core in E0; inversion E0; reflexivity).
+    rewrite K. unfold has_unknown in Hu. destruct (ie_unknown e0); [discriminate|discriminate]. }
+  assert (Hunk : Forall (unk_inv ivs1) (nla_group ivs1 es)).
+  { rewrite Forall_forall. intros e' He'. destruct (nla_group_elem2 ivs1 es e' Hne1 He') as (e1 & He1 & (S1 & S2 & S3 & _) & _).
+    split; [|intros _; apply Hnz; exact He'].
+    destruct (HB e1 He1) as (_ & _ & _ & B4 & _). rewrite S3. eapply Forall_impl; [|exact B4].
+    intros p Hp. eapply evolves_idx; eassumption. }
+  destruct (requalify_fold_spec s _ _ _ _ _ _ _ _ Er V2 Hunk) as (R1 & F2).
+  assert (Hev2 : evolves s ivs ivs2) by (eapply evolves_trans; eassumption).
+  assert (Hpull : forall e2, In e2 es2 -> exists e', In e' (nla_group ivs1 es) /\ same2 e' e2 /\ exists e1, In e1 es /\ same2 e1 e').
+  { intros e2 He2. destruct (requalify_fold_elem2 _ _ _ _ _ _ _ _ _ Er e2 He2) as [[]|(e' & He' & S2)].
+    destruct (nla_group_elem2 ivs1 es e' Hne1 He') as (e1 & He1 & S1). exists e'. split; [exact He'|]. split; [exact S2|]. exists e1. auto. }
+  split; [exact Hev2|]. split; [eapply noext_evolves; eassumption|]. split; [|split].
+  - intros e2 He2. destruct (Hpull e2 He2) as (e' & _ & S2 & e1 & He1 & S1). exists e1. split; [exact He1|eapply same2_trans; eassumption].
+  - intros e2 He2. destruct (Hpull e2 He2) as (e' & He' & S2 & e1 & He1 & S1).
+    pose proof (same2_trans _ _ _ S1 S2) as ((A1 & A2 & A3 & A4 & A5) & _).
+    destruct S2 as ((Q1 & Q2 & Q3 & _) & _).
+    assert (Hnz2 : ie_unknown e2 <> []) by (rewrite Q3; apply Hnz; exact He').
+    assert (Hty1 : ie_type e1 <> EUnknown).
+    { intro K. apply Hnz2. rewrite A3. apply (oi_untyped _ _ Hown e1 He1 K). }
+    split; [intro K; apply Hty1; apply A5; exact K|]. split; [exact Hnz2|].
+    intros p Hp. rewrite A3 in Hp. destruct (HB e1 He1) as (_ & _ & _ & B4 & _). rewrite Forall_forall in B4.
+    pose proof (evolves_idx _ _ _ p Hev2 (B4 p Hp)) as Hi. pose proof (idx_type_in_bounds _ _ Hi) as Hb.
+    split; [exact Hb|]. rewrite Forall_forall in F2. specialize (F2 _ (geti_In _ _ Hb)).
+    destruct (iv_type (geti ivs2 p)); cbn in Hi, F2 |- *; try discriminate; reflexivity.
+  - intros e2 p He2 Ht2 Hn2 Hp. destruct (Hpull e2 He2) as (e' & He' & S2 & e1 & He1 & S1).
+    pose proof (same2_trans _ _ _ S1 S2) as ((A1 & A2 & A3 & A4 & A5) & A6 & A7).
+    rewrite A3 in *.
+    assert (Hn1 : ie_type e1 <> ENla) by (intro K; apply Hn2; apply A6; exact K).
+    destruct (HB e1 He1) as (_ & _ & _ & B4 & _). rewrite Forall_forall in B4. specialize (B4 p Hp).
+    pose proof (idx_type_in_bounds _ _ B4) as Hb.
+    destruct (oi_own _ _ Hown p Hb) as (W1 & W2 & W3).
+    assert (Hin : In e1 (owners es p)) by (unfold owners; apply filter_In; split; [exact He1|apply mem_nat_In; exact Hp]).
+    assert (Hcase : comp_type (iv_type (geti ivs p)) = true \/ (iv_type (geti ivs p) = VState /\ has_index (geti ivs p) = true)).
+    { destruct (iv_type (geti ivs p)) eqn:Ty; cbn in B4; try discriminate; try (left; reflexivity).
+      - destruct (has_index (geti ivs p)) eqn:Hi; [right; split; reflexivity|].
+        rewrite W1 in Hin by (right; split; reflexivity). destruct Hin.
+      - exfalso. apply Hn1. apply (W3 eq_refl). exact Hin.
+      - exfalso. rewrite Forall_forall in V2. rewrite <- L1 in Hb. specialize (V2 _ (geti_In _ _ Hb)).
+        rewrite T1, Ty in V2. cbn in V2. discriminate. }
+    destruct (W2 Hcase) as (e & E1 & E2 & _). rewrite E1 in Hin. destruct Hin as [<-|[]]. exact E2.
+Qed.
 
 Lemma finish_deps : forall s voi ivs es vidx,
-  own_inv ivs es -> nonempty_inv ivs es -> noconst ivs -> Forall (fun v => iv_external v = false) ivs -> ivs_ok s ivs ->
+  own_inv ivs es -> Forall (fun v => iv_external v = false) ivs -> ivs_ok s ivs ->
   dependency_fix = true ->
   (forall ivs2, evolves s ivs ivs2 -> forall e1 e2, In e1 es -> same_dep e1 e2 -> ie_type e2 <> EUnknown -> dep_ok s ivs2 e2) ->
   valid_type (r_type (finish s voi ivs es vidx)) = true ->
-  (forall p, iv_type (geti ivs p) = VState -> has_index (geti ivs p) = true) ->
   wf_deps_complete s (finish s voi ivs es vidx) = true /\ wf_deps_sound s (finish s voi ivs es vidx) = true.
 Proof.
-  intros s voi ivs es vidx Hown Hn Hnc Hne Hok Hfx Hdep Hvalid Hst. unfold finish in *.
+  intros s voi ivs es vidx Hown Hne Hok Hfx Hdep Hvalid. unfold finish in *.
   destruct (validate_vars ivs vidx) as [[ivs1 vidx1] iss1] eqn:Ev.
   destruct iss1 as [|i1 ir1].
   2:{ cbn in Hvalid. destruct (existsb _ ivs1); [destruct (existsb _ ivs1)|]; discriminate. }
   destruct (fold_left requalify_step (nla_group ivs1 es) (ivs1, [], [], [])) as [[[ivs2 es2] ov] iss2] eqn:Er.
   destruct iss2 as [|i2 ir2]; [|discriminate].
-  destruct (finish_state s _ _ _ _ _ _ _ _ Hown Hn Hnc Hne Hst Ev Er) as (F & O & _ & Hne2).
-  destruct (validate_vars_spec s _ _ _ _ _ Ev) as (V1 & V2). specialize (V2 eq_refl).
-  pose proof (Forall2_evolves _ _ _ V1) as Hev1. pose proof (noext_evolves _ _ _ Hev1 Hne) as Hne1.
-  assert (Hunk : Forall (unk_inv ivs1) (nla_group ivs1 es)).
-  { pose proof (fin_after_validate _ _ _ _ _ Hown Hn Hnc Hst Ev V2) as F1.
-    destruct (nla_group_cores ivs1 es Hne1) as (G1 & _). rewrite <- G1 in F1.
-    rewrite Forall_forall. intros e' He'. destruct F1 as [_ _ Fe].
-    assert (Hc : In (core e') (map core (nla_group ivs1 es))) by (apply in_map; exact He').
-    destruct (Fe _ Hc) as (E1 & E2 & E3). split; [|intros _; exact E2].
-    rewrite Forall_forall. intros p Hp. destruct (E3 p Hp) as (_ & P2). cbn [core snd] in *.
-    destruct (iv_type (geti ivs1 p)); cbn in P2 |- *; try discriminate; reflexivity. }
-  destruct (requalify_fold_spec s _ _ _ _ _ _ _ _ Er V2 Hunk) as (R1 & _).
-  assert (Hev2 : evolves s ivs ivs2) by (eapply evolves_trans; eassumption).
+  destruct (finish_weak s _ _ _ _ _ _ _ _ Hown Hne Ev Er) as (Hev2 & Hne2 & Hpull & Hfe & _).
   pose proof (evolves_ivs_ok _ _ _ Hok Hev2) as Hok2.
   assert (Hdep2 : Forall (dep_ok s ivs2) es2).
-  { rewrite Forall_forall. intros e2 He2.
-    destruct (requalify_fold_elem _ _ _ _ _ _ _ _ _ Er e2 He2) as [[]|(e' & He' & S2)].
-    destruct (nla_group_elem ivs1 es e' Hne1 He') as (e1 & He1 & S1).
-    apply (Hdep ivs2 Hev2 e1 e2 He1); [eapply same_dep_trans; eassumption|].
-    destruct F as [_ _ Fe]. assert (Hc : In (core e2) (map core es2)) by (apply in_map; exact He2). apply (Fe _ Hc). }
+  { rewrite Forall_forall. intros e2 He2. destruct (Hpull e2 He2) as (e1 & He1 & (S1 & _)).
+    apply (Hdep ivs2 Hev2 e1 e2 He1 S1). apply (Hfe e2 He2). }
   destruct (model_type voi ivs2 es2); try discriminate; apply package_deps; assumption.
 Qed.
 
@@ -799,10 +941,10 @@ Qed.
     [unique_ids s] says that the abstract system gives different ids to different equations (the specification
     function [find_eqn] looks a document equation up by its id). *)
 Theorem result_wf_deps : forall s r,
-  analyse s = Done r -> valid_type (r_type r) = true -> dependency_fix = true -> unique_ids s -> states_have_odes s ->
+  analyse s = Done r -> valid_type (r_type r) = true -> dependency_fix = true -> unique_ids s ->
   wf_deps_complete s r = true /\ wf_deps_sound s r = true.
 Proof.
-  intros s r H Hvalid Hfx Huniq Hso. unfold analyse, analyse_ext in H.
+  intros s r H Hvalid Hfx Huniq. unfold analyse, analyse_ext in H.
   destruct (negb (resolvable s)); [discriminate|].
   destruct (build s) as [[ivs0 es0]|] eqn:Eb; [|discriminate].
   destruct (check_inits s ivs0 0 s); [|inversion H; subst; discriminate].
@@ -877,15 +1019,14 @@ Proof.
       * intros u Hu. rewrite S3 in Hu. rewrite Hcl2. apply Do; assumption.
       * exists p. split; [|rewrite Hcl2; symmetry; exact P3].
         rewrite Forall_forall in Bb. specialize (Bb p P1). destruct Hev2 as (L2 & _). destruct Hev as (L1 & _). cbn [cs_ivs] in *. lia.
-  - apply (Hso st es1). unfold loop_state. rewrite Eb. exact El.
 Qed.
 
 Theorem result_wf_deps_complete : forall s r,
-  analyse s = Done r -> valid_type (r_type r) = true -> dependency_fix = true -> unique_ids s -> states_have_odes s ->
+  analyse s = Done r -> valid_type (r_type r) = true -> dependency_fix = true -> unique_ids s ->
   wf_deps_complete s r = true.
-Proof. intros s r H1 H2 H3 H4 H5. exact (proj1 (result_wf_deps s r H1 H2 H3 H4 H5)). Qed.
+Proof. intros s r H1 H2 H3 H4. exact (proj1 (result_wf_deps s r H1 H2 H3 H4)). Qed.
 
 Theorem result_wf_deps_sound : forall s r,
-  analyse s = Done r -> valid_type (r_type r) = true -> dependency_fix = true -> unique_ids s -> states_have_odes s ->
+  analyse s = Done r -> valid_type (r_type r) = true -> dependency_fix = true -> unique_ids s ->
   wf_deps_sound s r = true.
-Proof. intros s r H1 H2 H3 H4 H5. exact (proj2 (result_wf_deps s r H1 H2 H3 H4 H5)). Qed.
+Proof. intros s r H1 H2 H3 H4. exact (proj2 (result_wf_deps s r H1 H2 H3 H4)). Qed.
